@@ -186,6 +186,22 @@ def run(repo, rep, tier):
         rep.check('patch', 'compare_version returns %d on every path when its own numeric version is %s (patch suffixes cannot override the numeric order)' % (want, rel), not wrong, cv,
                   'compare_version returns %s although its own numeric version is %s than the other%s' % (wrong[0][0] if wrong else '', rel, (' (on the path where %s)' % ' / '.join(wrong[0][1][:2])) if wrong and wrong[0][1] else ''),
                   stmt='compare_version orientation: %s' % rel, sample={'rule': 'patch', 'ordering': rel, 'paths': len(finals)})
+    # the other version handed to compare_version as text is split into number and patch suffix by a pattern: its number group must be able to hold
+    # every dotted decimal number with one or more components (the property quantifies over 1-4 components); otherwise '7p2' is not split, its
+    # patch is lost and the judgement stops being antisymmetric
+    from sa.regex_automata import Lang, split_at_group, inclusion
+    splits = [n for n in walk_no_nested(cv) if isinstance(n, ast.Call) and unparse(n.func) in ('re.match', 're.search', 're.fullmatch') and len(n.args) == 2 and isinstance(n.args[0], ast.Constant)
+              and isinstance(n.args[0].value, str) and unparse(n.args[1]) == 'other']
+    rep.floor('patch', 'pattern splitting the other version into number and patch', len(splits), 1)
+    for sp in splits:
+        pre, grp, post = split_at_group(sp.args[0].value, 1)
+        ok1, cex1 = inclusion(Lang(r'\d+(\.\d+)*'), grp)
+        rep.check('patch', 'the number group of %r holds every dotted decimal with one or more components' % sp.args[0].value, ok1, sp,
+                  'compare_version splits the other version with %r, whose number group cannot hold %r: a one-component version with a patch suffix (e.g. "7p2") is not split, so its patch level is ignored and the older/newer judgement is not antisymmetric' % (sp.args[0].value, cex1 if not ok1 else ''),
+                  stmt='version/patch split pattern')
+        ok2, cex2 = inclusion(grp, Lang(r'[\d.]+'))
+        rep.check('patch', 'the number group of %r holds digits and dots only' % sp.args[0].value, ok2, sp, 'number group of %r can capture %r' % (sp.args[0].value, cex2 if not ok2 else ''), stmt='version/patch split pattern numeric')
+        rep.evals(2)
     # Timeframe._update, same ordering domain: the "from" slots (0, 2) keep the numerically newest first-appearance version, the "till" slots (1, 3)
     # the numerically oldest removal version; an empty slot takes the incoming version
     tu = repo.func('timeframe', 'Timeframe._update')
